@@ -10,7 +10,8 @@ from .translation import Letters
 from ..carriers import local_roles, role
 
 rule("C01.a", "nodal rows: coefficients come from mapping['disp_factor'], columns from mapping.index, both through the same "
-              "selector pair (type == 'd' & node == n; time_step == t); right-hand side zeros and letter count use one counter", floor=5)
+              "selector pair (type == 'd' & node == n; time_step == t); right-hand side zeros and letter count use one counter", floor=5,
+     props=["C01", "C18"])     # C18: the nodal price is the dual of exactly this row - a rescaled row has a rescaled dual
 rule("C01.b", "the default dispatch factor (column created when absent, NaN filled with 1) is established before the factor "
               "column is read", floor=2)
 rule("C01.d", "the dispatch report accumulates x[variable label] * disp_factor over rows selected by asset, type 'd' and node, "
